@@ -14,6 +14,14 @@
 //   into a=… ops=… mat=… oshape=<shape> olayout=row|col
 //        evaluates the composition into a caller-supplied ndarray pre-filled with -7: eval(v, None, out);
 //        answer: ok shape=<out shape> buf=<raw buffer of out>   [+ events=3:1 appended by proto.hpp on the silent return]
+//        olayout also names fixed / bounded output kinds (C10_OUT_KINDS): nested32 = std::array<std::array<T,2>,3>,
+//        fixed32 = fixed_ndarray<T,3,2>, nested23, fixed23, hybrid = hybrid_ndarray<T,12,2> resized to oshape;
+//        for these `buf` lists the logical elements in C order.
+//   la=<kind> selects the storage kind of leaf a (C10_LEAF_KINDS bit mask: 1 row 2 col 4 nested 8 fixed 16 cshape
+//        32 hybrid 64 bounded 128 cbounded 256 dynfd); C10_REPORT_KIND appends ` kind=fixed|bounded|dynamic` (what the
+//        row-major resolver chose for the result) to comp answers.
+//   maybe a=<shape> to=<shape> : v = view::reshape(a, to) is nmtools_maybe<view>; answers has_value(v) / has_value(eval(v))
+//        and, when present, the comp answer of *v against *eval(v) — the maybe lifting of detail::eval itself.
 // Floats are printed as bit patterns (f<hex> / d<hex>).
 #include "c10_ops.hpp"
 using namespace c10;
@@ -45,19 +53,46 @@ template <typename X> static std::string finish_comp(const X& x) {
         if (!same(AO, B)) return "view-eval-differ view{" + show(B) + "} eval-default{" + show(AO) + "}";
 #endif
     }
-    return "ok " + show(B) + " col=" + col;
+    std::string kind;
+#ifdef C10_REPORT_KIND
+    if constexpr (meta::is_view_v<X> && !meta::is_num_v<X>) {
+        using E = decltype(na::eval(x, nm::None, nm::None, na::RowMajorResolver));
+        kind = meta::is_fixed_size_v<E> ? " kind=fixed" : meta::is_bounded_size_v<E> ? " kind=bounded" : " kind=dynamic";
+    }
+#endif
+    return "ok " + show(B) + " col=" + col + kind;
 }
 
+template <typename O, typename X> static std::string into_go(const X& x, const uvec& oshape);
 template <typename O, typename X> static std::string into_with(const X& x, const uvec& oshape) {
     if constexpr (meta::is_num_v<X> || !meta::is_view_v<X>) return "not-a-view";
-    else {
-        O out; out.resize(oshape);
-        size_t n = nm::size(out);
-        for (size_t k = 0; k < n; k++) out.data()[k] = (elem_t)-7;
+    else if constexpr (!std::is_same_v<O,arr_t> && !std::is_same_v<O,carr_t> && !meta::is_fail_v<decltype(meta::fixed_dim_v<X>)>
+                       && !meta::is_fail_v<decltype(meta::fixed_dim_v<O>)>) {
+        // both ranks are compile-time constants: a mismatch is a compile error (static_assert in isequal), never silent
+        if constexpr (meta::fixed_dim_v<X> != meta::fixed_dim_v<O>) return "static-rank-mismatch";
+        else return into_go<O>(x, oshape);
+    } else return into_go<O>(x, oshape);
+}
+template <typename O, typename X> static std::string into_go(const X& x, const uvec& oshape) {
+    {
+        O out{}; if (!shape_to(out, oshape)) return "bad-args";
+        auto oshp = nm::shape(out);
+        auto nd = ix::ndindex(oshp);
+        for (size_t k = 0; k < nd.size(); k++) nm::apply_at(out, nd[k]) = (elem_t)-7;
         na::eval(x, nm::None, out);
-        return "ok shape=" + fmt(to_uvec(nm::shape(out))) + " buf=" + buffer_of(out);
+        if constexpr (std::is_same_v<O,arr_t> || std::is_same_v<O,carr_t>)
+            return "ok shape=" + fmt(to_uvec(nm::shape(out))) + " buf=" + buffer_of(out);
+        else { Obs o = observe(out); return "ok shape=" + fmt(to_uvec(nm::shape(out))) + " buf=" + (o.err.empty() ? o.data : o.err); }
     }
 }
+#ifdef C10_OUT_KINDS
+using nested32_t = std::array<std::array<elem_t,2>,3>;
+using fixed32_t  = na::fixed_ndarray<elem_t,3,2>;
+namespace c10 {
+template <> inline bool shape_to<nested32_t>(nested32_t&, const uvec& s) { return s == uvec{3,2}; }
+template <> inline bool shape_to<fixed32_t>(fixed32_t&, const uvec& s) { return s == uvec{3,2}; }
+}
+#endif
 
 template <typename L> static std::string serve(const std::string& op, const Args& a, const L& leaf) {
     auto ops = parse_ops(get(a, "ops"));
@@ -66,11 +101,18 @@ template <typename L> static std::string serve(const std::string& op, const Args
     unsigned bmat = has(a, "bmat") ? (unsigned)integer(a, "bmat") : 0u;
     arr_t bleaf = has(a, "b") ? mk(nats(a, "b"), 1000) : arr_t{};
     arr_t cleaf = has(a, "c") ? mk_cond(nats(a, "c")) : arr_t{};
-    uvec oshape; bool col = false;
-    if (op == "into") { oshape = nats(a, "oshape"); col = has(a, "olayout") && get(a, "olayout") == "col"; }
+    uvec oshape; bool col = false; std::string olay = "row";
+    if (op == "into") { oshape = nats(a, "oshape"); if (has(a, "olayout")) olay = get(a, "olayout"); col = olay == "col"; }
     auto fin = [&](const auto& x) -> std::string {
         if (op == "comp") return finish_comp(x);
 #ifndef C10_NO_INTO
+#ifdef C10_OUT_KINDS
+        if (olay == "nested32") return into_with<nested32_t>(x, oshape);
+        if (olay == "fixed32") return into_with<fixed32_t>(x, oshape);
+        if (olay == "nested23") return into_with<nested_t>(x, oshape);
+        if (olay == "fixed23") return into_with<fixed_t>(x, oshape);
+        if (olay == "hybrid") return into_with<hybrid_t>(x, oshape);
+#endif
         return col ? into_with<carr_t>(x, oshape) : into_with<arr_t>(x, oshape);
 #else
         return "unknown-op";
@@ -88,11 +130,66 @@ template <typename L> static std::string serve(const std::string& op, const Args
     });
 }
 
+#ifndef C10_LEAF_KINDS
+#define C10_LEAF_KINDS 1
+#endif
+
+#ifdef C10_MAYBE
+#include "nmtools/array/view/reshape.hpp"
+static std::string serve_maybe(const Args& a) {
+    auto arr = mk<arr_t>(nats(a, "a"));
+    auto to = intsi(a, "to");
+    auto v = view::reshape(arr, to);                                      // nmtools_maybe<view>
+    static_assert(meta::is_maybe_v<decltype(v)>);
+    auto e = na::eval(v, nm::None, nm::None, na::RowMajorResolver);       // nmtools_maybe<ndarray>
+    auto ec = na::eval(v, nm::None, nm::None, na::ColumnMajorResolver);
+    auto eo = na::eval(v);
+    auto ef = na::reshape(arr, to);
+    static_assert(meta::is_maybe_v<decltype(e)> && meta::is_maybe_v<decltype(ef)>);
+    bool hv = nm::has_value(v);
+    if (nm::has_value(e) != hv || nm::has_value(ec) != hv || nm::has_value(eo) != hv || nm::has_value(ef) != hv)
+        return "maybe-differ view=" + std::to_string(hv) + " eval=" + std::to_string(nm::has_value(e)) + std::to_string(nm::has_value(ec))
+             + std::to_string(nm::has_value(eo)) + std::to_string(nm::has_value(ef));
+    if (!hv) return "nothing";
+    Obs B = observe(*v), A = observe(*e), AC = observe(*ec), AO = observe(*eo), AF = observe(*ef);
+    if (!same(A, B) || !same(AC, B) || !same(AO, B) || !same(AF, B)) return "view-eval-differ view{" + show(B) + "} eval{" + show(A) + "}";
+    return "ok " + show(B) + " col=" + buffer_of(*ec);
+}
+#endif
+
 std::string handle(const std::string& op, const Args& a) {
+#ifdef C10_MAYBE
+    if (op == "maybe") return serve_maybe(a);
+#endif
     if (op != "comp" && op != "into") return "unknown-op";
     auto s = nats(a, "a");
-#ifdef C10_COL_LEAF
-    if (has(a, "la") && get(a, "la") == "col") return serve(op, a, mk<carr_t>(s));
+    std::string la = has(a, "la") ? get(a, "la") : "row";
+#if (C10_LEAF_KINDS) & 1
+    if (la == "row") return serve(op, a, mk<arr_t>(s));
 #endif
-    return serve(op, a, mk<arr_t>(s));
+#if (C10_LEAF_KINDS) & 2
+    if (la == "col") return serve(op, a, mk<carr_t>(s));
+#endif
+#if (C10_LEAF_KINDS) & 4
+    if (la == "nested") return serve(op, a, mk<nested_t>(s));
+#endif
+#if (C10_LEAF_KINDS) & 8
+    if (la == "fixed") return serve(op, a, mk<fixed_t>(s));
+#endif
+#if (C10_LEAF_KINDS) & 16
+    if (la == "cshape") return serve(op, a, mk<cshape_t>(s));
+#endif
+#if (C10_LEAF_KINDS) & 32
+    if (la == "hybrid") return serve(op, a, mk<hybrid_t>(s));
+#endif
+#if (C10_LEAF_KINDS) & 64
+    if (la == "bounded") return serve(op, a, mk<bounded_t>(s));
+#endif
+#if (C10_LEAF_KINDS) & 128
+    if (la == "cbounded") return serve(op, a, mk<cbounded_t>(s));
+#endif
+#if (C10_LEAF_KINDS) & 256
+    if (la == "dynfd") return serve(op, a, mk<dynfd_t>(s));
+#endif
+    return "leaf-kind-not-compiled";
 }
